@@ -400,7 +400,12 @@ def autotool(selector, undo=False):
         rval = rval.wrap_functions(_untooler)
     else:
         rval = rval.wrap_functions(_tooler)
-        verify(rval)
+        try:
+            verify(rval)
+        except Exception:
+            # The selector is refused: undo the tooling we just installed
+            rval.wrap_functions(_untooler)
+            raise
     return rval
 
 
